@@ -100,6 +100,7 @@ def behaviour_jobs(ctx, prop, per_worker):
                              expect=None if ties else dict(ci=it["ci"], qnum=it["qnum"], qden=it["qden"]),
                              exact_ties=int(ties), src="model-behaviour", cfg="B_" + cfg))
     res = res[:len(GEN)]
+    nrng = random.Random(ctx.seed * 31 + 5)
     for (cfg, fn), items in zip(GEN.items(), res):
         seen = set()
         for it in items:
@@ -117,7 +118,39 @@ def behaviour_jobs(ctx, prop, per_worker):
             if "finetune" in fn:
                 job["start"] = it["start"]
             jobs.append(job)
+            jobs += boundary_jobs(job, it, nrng)
     return jobs
+
+
+def boundary_jobs(job, it, rng, cap=[0]):
+    """guard-boundary inputs from the model: the behaviour passed a state in which joining another
+    module would change Q by EXACTLY 0 (marker "zero": the node set that would move, the node set of the
+    other module, the level).  The real code compares float gains with 1e-10: the same call is made
+    with one connection between the two sets perturbed by +-4e-10 / 3e-11 / 3e-9, which puts the move just
+    above or below the code's move threshold while the level's gain in Q stays below its level threshold."""
+    zeros = [x[1] for x in it["script"] if x[0] == "zero" and len(x[1][0]) and len(x[1][1])]
+    if not zeros or cap[0] >= 480:
+        return []
+    n = len(job["W"])
+    und = lc.KIND[job["fn"]] == "und"
+    out = []
+    zeros.sort(key=lambda z: -z[2][0])          # deepest level first
+    for A, B, _lvl in zeros[:2]:
+        a, b = rng.choice(list(A)) - 1, rng.choice(list(B)) - 1
+        # the window between the two thresholds is about (2e-10, 1e-10 * s / 4): 4e-10 lies inside for
+        # every model input; 3e-11 stays below the move threshold, 3e-9 passes both thresholds
+        for d in (4e-10, -4e-10, 3e-11, 3e-9):
+            if d < 0 and job["W"][a][b] == 0:
+                continue
+            j = dict(job, noise=[[a, b, d]] + ([[b, a, d]] if und else []), expect=None, exact_ties=1,
+                     src="model-boundary")
+            if job["fn"] in ("modularity_louvain_und", "modularity_louvain_dir"):
+                j["hierarchy"] = rng.randrange(2)
+            if job["fn"] in lc.TAKES_START:
+                j["feedback"] = 1
+            out.append(j)
+            cap[0] += 1
+    return out
 
 
 def random_jobs(ctx, prop, count):
@@ -140,6 +173,16 @@ def random_jobs(ctx, prop, count):
             W = inputs.rand_graph(rng, n, rng.choice([0.3, 0.5, 0.8]), und=und, wmax=rng.choice([1, 3]))
             if W.sum() == 0:
                 continue
+            if not und and rng.random() < 0.4:
+                # sinks and sources (directed routines keep out- and in-sums apart: a node or a whole
+                # module with out-degree 0 but in-degree > 0, or the reverse, separates the two)
+                for i in rng.sample(range(n), rng.randint(1, max(1, n // 2))):
+                    if rng.random() < 0.7:
+                        W[i, :] = 0
+                    else:
+                        W[:, i] = 0
+                if W.sum() == 0:
+                    continue
             if rng.random() < 0.2:       # self-connections: part of "all networks with positive total
                 for i in range(n):       # weight"; the first level then has the diagonal terms that
                     if rng.random() < 0.5:      # otherwise only pooled later levels have
@@ -211,6 +254,37 @@ def random_jobs(ctx, prop, count):
                 lab = rng.sample(labels_pool, k) if k <= len(labels_pool) else list(range(k))
                 job["start"] = [lab[p[i] // c] for i in range(n)]     # one module per clique, shuffled labels
             job["feedback"] = 1
+        jobs.append(job)
+    # directed networks rich in sinks and sources (8..14 nodes, a third of them with no outgoing or no
+    # incoming connection), started from partitions in which one module is a single ordinary node plus
+    # sinks/sources: when that node leaves, the module's out- (in-) sums are zero although it is not
+    # empty - the state in which the two mirrored bookkeeping arrays of the directed routines differ
+    # most.  Wrong moves from that state are rare per run (measured on a seeded slip: 0.3 %), the runs
+    # are cheap: volume.
+    for t in range(1500 if count <= 1000 else 6000):
+        n = rng.randint(8, 14)
+        W = inputs.rand_graph(rng, n, rng.choice([0.2, 0.3]), und=False, wmax=3)
+        deg = rng.sample(range(n), max(1, n // 3))
+        for i in deg:
+            if rng.random() < 0.75:
+                W[i, :] = 0
+            else:
+                W[:, i] = 0
+        if W.sum() == 0:
+            continue
+        k = rng.randint(2, n)
+        start = [rng.randint(1, k) for _ in range(n)]
+        non = [i for i in range(n) if i not in deg]
+        if non and rng.random() < 0.6:
+            start[rng.choice(non)] = k + 1
+            for x in rng.sample(deg, rng.randint(1, len(deg))):
+                start[x] = k + 1
+        fn = rng.choice(["modularity_finetune_dir"] * 3 + ["community_louvain"])
+        gn, gd = rng.choice(GAMMAS + [(1, 1)])
+        job = dict(fn=fn, prop=prop, W=W.tolist(), gn=gn, gd=gd, seed=rng.randrange(2 ** 31),
+                   src="sinks-sources", start=start)
+        if fn == "community_louvain":
+            job["objective"] = "modularity"
         jobs.append(job)
     # modularity_und/_dir/_und_sign for a given partition
     for t in range(max(30, count // 6)):
